@@ -153,7 +153,7 @@ def _rout(acc, W, transform, Dtrue, wit, suffix):
                     dict(wit, function='rout_efficiency', transform=transform, Erout=E.tolist(), expected=inv.tolist()))
 
 
-def _floyd(acc, W, transform, wit, outs, label):
+def _floyd(acc, W, transform, wit, outs, label, rout=True):
     suffix = '/transform-%s' % transform
     L = O.lengths_from(W, transform)
     Dtrue = O.closure(L)
@@ -163,7 +163,8 @@ def _floyd(acc, W, transform, wit, outs, label):
         _dist_clauses(acc, 'distance_wei_floyd', r[0], Dtrue, w2, suffix=suffix)
         _hops_clause(acc, 'distance_wei_floyd', r[1], Dtrue, O.hop_sets(L, Dtrue), w2, suffix=suffix)
         outs.append((label, 'distance_wei_floyd', np.asarray(r[0], dtype=float)))
-    _rout(acc, W, transform, Dtrue, wit, suffix)
+    if rout:
+        _rout(acc, W, transform, Dtrue, wit, suffix)
     return L, Dtrue
 
 
@@ -218,11 +219,11 @@ def check_binary(acc, A, cls, part):
 
 
 # ---- one connection-length matrix (positive lengths, 0 = no connection) -----------------------------------------------------
-def check_lengths(acc, Lw, cls, part, transforms=True):
+def check_lengths(acc, Lw, cls, part, transforms=True, rout=True):
     n = len(Lw)
     wit = {'L': Lw.tolist(), 'class': cls}
     outs = []
-    L, Dtrue = _floyd(acc, Lw, None, wit, outs, 'distance_wei_floyd-None')
+    L, Dtrue = _floyd(acc, Lw, None, wit, outs, 'distance_wei_floyd-None', rout=rout)
     H = O.hop_sets(L, Dtrue)
     ok, r = _try(acc, 'distance_wei', wit, bct.distance_wei, Lw.copy())
     if ok:
@@ -293,9 +294,9 @@ def worker(task):
                 check_lengths(acc, G.weight_by_position(A, pal, symmetric=(cls == 'und')), cls, 'pal')
             check_weights01(acc, G.weight_by_position(A, W01_PALETTE, symmetric=(cls == 'und')), cls, 'pal')
     elif kind == 'exh':
-        _, cls, n, values, idxs, transforms = task
+        _, cls, n, values, idxs, transforms, rout = task
         for idx in idxs:
-            check_lengths(acc, weighted_from_index(cls, n, values, idx), cls, 'exh', transforms=transforms)
+            check_lengths(acc, weighted_from_index(cls, n, values, idx), cls, 'exh', transforms=transforms, rout=rout)
     elif kind == 'rand':
         _, seed, count, nmax = task
         rng = np.random.RandomState(seed)
@@ -362,12 +363,12 @@ def run_bounded(run, tier, seed):
         npairs = n * (n - 1) // (2 if cls == 'und' else 1)
         total = len(values) ** npairs
         for c in ch(list(range(total)), 64 if total < 100000 else 256):
-            tasks.append(('exh', cls, n, values, c, thorough and total < 100000))
+            tasks.append(('exh', cls, n, values, c, thorough and total < 100000, total < 100000))
     run.bounded_part('distances-lengths-with-ties',
                      bounds={'by-position palettes': 'every labelled digraph n <= %d and graph n <= %d, lengths assigned by position from %r; weights from %r for inv/log (1 -> zero log-length)' % (pd, pu, PALETTES, W01_PALETTE),
                              'all length assignments': '; '.join('%s n=%d lengths %r (0 = no connection)' % e for e in exh),
                              'transforms': "by-position palettes: None on L, 'inv' on 1/L, 'log' on exp(-L), inv and log on the (0,1] palette; all length assignments: "
-                                           + ("None, 'inv' on 1/L, 'log' on exp(-L) (dir n=4: None only)" if thorough else 'None only (distance_wei, distance_wei_floyd, rout_efficiency, charpath)'),
+                                           + ("None, 'inv' on 1/L, 'log' on exp(-L) (dir n=4: None only, without rout_efficiency)" if thorough else 'None only (distance_wei, distance_wei_floyd, rout_efficiency, charpath)'),
                              'functions': 'distance_wei (D and B), distance_wei_floyd (SPL and hops), efficiency_wei, rout_efficiency, charpath; agreement'},
                      rule='one case = one length/weight matrix; non-trivial = some ordered pair unreachable or at >= 2 hops on a minimum-length path; distinct by (class, n, matrix bytes)',
                      exhaustive=True)
